@@ -225,7 +225,7 @@ pub fn property() -> Property {
         parts: vec![Box::new(GenPart {
             name: "schedules",
             rule: "see property rule",
-            cases: (480_000, 2_000_000),
+            cases: (480_000, 10_000_000),
             fuzz_decode: Some(crate::fuzzdec::c02_case),
             strategy,
             check,
